@@ -49,6 +49,7 @@ let () =
       | "CASE" :: id :: _ -> st := init_slots; ch := init_chain; Printf.printf "CASE %s\n" id
       | ["G"; slot; ask] -> crun (CGenesis (nat_of_int (int_of_string slot))) ask
       | "B" :: ask :: _ :: rest -> crun (CBlock (vals_of rest)) ask
+      | "S" :: slot :: ask :: _ :: rest -> run (OpRaw (nat_of_int (int_of_string slot), vals_of rest)) ask
       | ["J"; src; dst; ask; k] -> run (OpCopyInc (nat_of_int (int_of_string src), nat_of_int (int_of_string dst), z_of_string k)) ask
       | "N" :: slot :: ask :: _ :: rest -> run (OpNew (nat_of_int (int_of_string slot), vals_of rest)) ask
       | ["I"; slot; ask; k] -> run (OpInc (nat_of_int (int_of_string slot), z_of_string k)) ask
